@@ -9,6 +9,26 @@ structure Tab where
   name : Bytes
   hist : Array (Nat × Db) := #[(0, [])]
   lastLi : Nat := 0
+  /-- cluster3 mode: the last applied index observed per node (indices of different nodes are not
+  comparable with each other) -/
+  nodeLi : List (Nat × Nat) := []
+
+/-- `<hex name>` or `<hex name>@<node>` -/
+def parseNameNode (s : String) : Option (Bytes × Option Nat) :=
+  match s.splitOn "@" with
+  | [n] => (parseBytes n).map (·, none)
+  | [n, k] => do pure (← parseBytes n, some (← k.toNat?))
+  | _ => none
+
+def Tab.last (t : Tab) (node : Option Nat) : Nat :=
+  match node with
+  | none => t.lastLi
+  | some k => ((t.nodeLi.find? (·.1 == k)).map (·.2)).getD 0
+
+def Tab.setLast (t : Tab) (node : Option Nat) (v : Nat) : Tab :=
+  match node with
+  | none => { t with lastLi := max t.lastLi v }
+  | some k => { t with nodeLi := (k, max (t.last (some k)) v) :: t.nodeLi.filter (·.1 != k) }
 
 structure St where
   tabs : List Tab := []
@@ -55,23 +75,34 @@ def step (st : St) (toks : List String) : St × String :=
       | none => bad
     | _, _ => bad
   | ["sample", n, l1, dg, l2] =>
-    match parseBytes n, l1.toNat?, l2.toNat? with
-    | some n, some l1, some l2 => match st.get n with
+    match parseNameNode n, l1.toNat?, l2.toNat? with
+    | some (n, node), some l1, some l2 => match st.get n with
       | some t =>
-        let st' := st.put { t with lastLi := max t.lastLi l2 }
-        if l1 < t.lastLi then (st', s!"bad leader-index-moved-backwards {t.lastLi}->{l1}")
+        let st' := st.put (t.setLast node l2)
+        if l1 < t.last node then (st', s!"bad leader-index-moved-backwards {t.last node}->{l1}")
         else if l2 < l1 then (st', "bad leader-index-moved-backwards-within-sample")
         else if (candidates t.hist l1 l2).any (fun db => userDigest db == dg) then (st', "ok")
         else (st', "bad content-is-not-the-leader's-at-any-index-between-the-two-index-reads")
       | none => bad
     | _, _, _ => bad
+  | ["lin", n, dg, acked] =>
+    -- a linearizable read: the content at an index at or beyond everything acknowledged before it started
+    match parseBytes n, acked.toNat? with
+    | some n, some acked => match st.get n with
+      | some t =>
+        let last := (t.hist.back?.map (·.1)).getD 0
+        if (candidates t.hist acked (max acked last)).any (fun db => userDigest db == dg) then (st, "ok")
+        else (st, "bad linearizable-read-misses-acknowledged-writes-or-shows-a-state-that-never-existed")
+      | none => bad
+    | _, _ => bad
+  | ["terms"] => (st, "ok")
   | ["final", n, li, dg, lastRev] =>
-    match parseBytes n, li.toNat?, lastRev.toNat? with
-    | some n, some li, some lastRev => match st.get n with
+    match parseNameNode n, li.toNat?, lastRev.toNat? with
+    | some (n, node), some li, some lastRev => match st.get n with
       | some t =>
         let fin := (t.hist.back?.map (·.2)).getD []
         if li < lastRev then (st, "bad follower-did-not-reach-the-leader's-last-revision")
-        else if li < t.lastLi then (st, "bad leader-index-moved-backwards")
+        else if li < t.last node then (st, "bad leader-index-moved-backwards")
         else if userDigest fin != dg then (st, "bad final-content-differs-from-the-leader's")
         else (st, "ok")
       | none => bad
